@@ -370,6 +370,9 @@ pub enum BOp {
     /// a frame whose length brings the position to the installed timeline's total duration plus
     /// {-2, -1, 0, 1, 2, 40, 400, 900, 1500} ns (an ordinary 1/512 s frame when that is not ahead)
     FrameToEnd(u8),
+    /// the application writes `timeline_position` itself (documented: "fine-grained control of
+    /// animation frames"): 0, the delay, the total -1/512 s, the total, the total + 1 s, 1/3 s
+    Seek(u8),
 }
 
 #[derive(Clone, Debug, Serialize, Deserialize)]
@@ -409,6 +412,7 @@ fn c18_strategy() -> impl Strategy<Value = C18Case> {
         1 => (0u8..5).prop_map(BOp::Clock),
         1 => prop::bool::weighted(0.6).prop_map(BOp::Target),
         2 => (0u8..9).prop_map(BOp::FrameToEnd),
+        1 => (0u8..6).prop_map(BOp::Seek),
     ];
     (
         desc::tl_strategy_animator(bevy_timing_strategy()),
@@ -422,7 +426,7 @@ fn c18_strategy() -> impl Strategy<Value = C18Case> {
         .prop_map(|(tl, other, with_timeline, start_disabled, start, ops, bystanders)| C18Case { bystanders, tl, other, with_timeline, start_disabled, start, ops })
 }
 
-const C18_LABELS: [&str; 16] = ["reached_ended", "frame_skipped_a_phase", "zero_frame", "disabled_frames", "reset_used", "set_timeline_used", "infinite", "exact_end_decision", "near_band", "playing_evaluated", "delayed", "no_timeline_start", "idle_bystander_first", "clock_paused_or_scaled", "frame_without_target_component", "frame_landing_next_to_the_end"];
+const C18_LABELS: [&str; 17] = ["reached_ended", "frame_skipped_a_phase", "zero_frame", "disabled_frames", "reset_used", "set_timeline_used", "infinite", "exact_end_decision", "near_band", "playing_evaluated", "delayed", "no_timeline_start", "idle_bystander_first", "clock_paused_or_scaled", "frame_without_target_component", "frame_landing_next_to_the_end", "position_written_by_the_application"];
 
 fn c18_judge(c: &C18Case, obs: &mut Obs) -> Result<(), String> {
     let mut app = App::new();
@@ -483,6 +487,21 @@ fn c18_judge(c: &C18Case, obs: &mut Obs) -> Result<(), String> {
                     _ => time.set_relative_speed(1.0),
                 }
                 obs.label(13);
+            }
+            BOp::Seek(sel) => {
+                let tm = cur.as_ref().map(|t| t.desc.timing);
+                let total = tm.map(|t| t.total()).filter(|t| t.is_finite()).unwrap_or(2.0);
+                let delay = tm.map(|t| t.delay as f64).unwrap_or(0.0);
+                let secs = match sel % 6 {
+                    0 => 0.0,
+                    1 => delay,
+                    2 => (total - 1.0 / 512.0).max(0.0),
+                    3 => total,
+                    4 => total + 1.0,
+                    _ => 1.0 / 3.0,
+                };
+                w.app.world.get_mut::<Animator<A>>(entity).unwrap().timeline_position = Duration::from_nanos((secs * 1e9).round() as u64);
+                obs.label(16);
             }
             BOp::Target(present) => {
                 if present {
@@ -580,7 +599,7 @@ fn c18(run: &mut Run) {
     let cases = run.tier.pick(50_000, 2_000_000);
     run.prop(
         "c18_schedule",
-        "proptest: timeline timing (delay 0/>0 incl. longer than any frame, repeat none/n/infinite, reverse) x start value x schedule <=40 of Frame(0, 1/512, 1/8, 1/2, 3, 100 s, 16.67 ms, 1 ns, ...)/FrameToEnd(total -2..+1500 ns)/Enable/Disable/Reset/SetTimeline/game-clock pause+speed/remove+re-insert the target component in a fresh Bevy App; per-frame oracle: allowed states from the position at frame start, time conservation, component == timeline(pos0) when Playing or newly Ended (terminal values), disabled = frozen, exactly one event per state change carrying the final state; non-trivial = reaches Ended and has a phase-skipping or zero-length frame",
+        "proptest: timeline timing (delay 0/>0 incl. longer than any frame, repeat none/n/infinite, reverse) x start value x schedule <=40 of Frame(0, 1/512, 1/8, 1/2, 3, 100 s, 16.67 ms, 1 ns, ...)/FrameToEnd(total -2..+1500 ns)/Seek(position written by the application)/Enable/Disable/Reset/SetTimeline/game-clock pause+speed/remove+re-insert the target component in a fresh Bevy App; per-frame oracle: allowed states from the position at frame start, time conservation, component == timeline(pos0) when Playing or newly Ended (terminal values), disabled = frozen, exactly one event per state change carrying the final state; non-trivial = reaches Ended and has a phase-skipping or zero-length frame",
         &C18_LABELS,
         c18_strategy(),
         cases,
